@@ -4,6 +4,7 @@ import (
 	"bytes"
 	"fmt"
 	"math/bits"
+	"math/rand/v2"
 
 	"github.com/philpearl/plenc/plenccore"
 	"google.golang.org/protobuf/encoding/protowire"
@@ -251,16 +252,16 @@ func c18SkipWellFormed(c *core.Ctx, idx int) {
 			}
 		case plenccore.WTLength:
 			l := []int{0, 1, 2, 127, 128, 129, 300, 16383, 16384}[r.IntN(9)]
-			field = refAppendUvarint(nil, uint64(l))
+			field = padUvarint(r, nil, uint64(l))
 			for j := 0; j < l; j++ {
 				field = append(field, byte(r.Uint32()))
 			}
 		case plenccore.WTSlice:
 			cnt := []int{0, 1, 2, 3, 127, 128, 200}[r.IntN(7)]
-			field = refAppendUvarint(nil, uint64(cnt))
+			field = padUvarint(r, nil, uint64(cnt))
 			for k := 0; k < cnt; k++ {
 				l := []int{0, 0, 1, 5, 127, 128, 200}[r.IntN(7)]
-				field = refAppendUvarint(field, uint64(l))
+				field = padUvarint(r, field, uint64(l))
 				for j := 0; j < l; j++ {
 					field = append(field, byte(r.Uint32()))
 				}
@@ -299,6 +300,29 @@ func c18SkipWellFormed(c *core.Ctx, idx int) {
 	}
 	c.Rec.Eval(n)
 	c.Rec.Count("skip_fields", n)
+}
+
+// padUvarint appends v as a varint, one time in four in a longer form than necessary (the last
+// group carries a continuation bit and one to three empty groups follow): legal protobuf, read by
+// every varint reader, never written by plenc
+func padUvarint(r *rand.Rand, dst []byte, v uint64) []byte {
+	dst = refAppendUvarint(dst, v)
+	if r.IntN(4) != 0 {
+		return dst
+	}
+	room := 10 - (len(refAppendUvarint(nil, v)))
+	pad := 1 + r.IntN(3)
+	if pad > room {
+		pad = room
+	}
+	if pad <= 0 {
+		return dst
+	}
+	dst[len(dst)-1] |= 0x80
+	for i := 1; i < pad; i++ {
+		dst = append(dst, 0x80)
+	}
+	return append(dst, 0x00)
 }
 
 func head(b []byte, n int) []byte {
@@ -401,7 +425,7 @@ func init() {
 		ID:        "C18",
 		Technique: "differential monitor of the plenccore primitives against an independent varint/zig-zag reference and protowire, over boundary-exhaustive and seeded random values",
 		Rule: "values: every 2^k+d (d in -2..2), its negation, complement and zig-zag images; seeded random 64-bit values of every bit length; thorough additionally ALL 2^32 32-bit values and their <<32 and negated images. " +
-			"boundary values are appended to destinations with 0-3 content bytes x 0-11 spare bytes. tags: all wire types x a dense index range, every 61st and 8191st index beyond it and the boundaries to 2^28, each read back from an exact buffer and followed by 1, 3 and 9 more bytes. Skip: model-built fields of every wire type with trailing bytes, every truncation class, and random hostile byte strings for all 8 wire-type codes. " +
+			"boundary values are appended to destinations with 0-3 content bytes x 0-11 spare bytes. tags: all wire types x a dense index range, every 61st and 8191st index beyond it and the boundaries to 2^28, each read back from an exact buffer and followed by 1, 3 and 9 more bytes. Skip: model-built fields of every wire type (lengths and counts one time in four as longer-than-necessary varints) with trailing bytes, every truncation class, and random hostile byte strings for all 8 wire-type codes. " +
 			"distinct_nontrivial counts distinct values / fields checked outside the dense sweeps (a value is non-trivial if it needs more than one byte or a field has non-zero length)",
 		Assume:     []string{"encoding/binary.Uvarint semantics (plenccore.ReadVarUint delegates to it)", "protowire v1.26.0 as second reference"},
 		Exhaustive: []string{"thorough tier: all 2^32 uint32 values through append/size/read/zig-zag"},
